@@ -21,6 +21,9 @@ type Violation struct {
 	Oracle   string `json:"oracle"`
 	Class    string `json:"class"`
 	Detail   string `json:"detail"`
+	// NoShrink: the violation cannot be re-observed inside the same process (the race
+	// detector reports each race once per process), so the run is not minimised in-process.
+	NoShrink bool `json:"-"`
 }
 
 // RunInfo is what one simulated run reports back besides a verdict.
